@@ -145,6 +145,16 @@ def step (fields : List String) : String :=
                (viewOf view) (decBool gplusReq) self es with
        | none => "CRASH-RENDER"
        | some b => encStr b)
+  | ["iteminfo", srvName, srvPort, sel, nameOverride, pop] =>
+    (match (decPop pop).head? with
+     | none => "NO-POP"
+     | some (_, pi) =>
+       let e0 : Entry := { selector := decStr sel }
+       let e1 := populateWith Generated.eaexts Generated.defaultMime pi e0
+       let e2 := match decOpt nameOverride with | some n => { e1 with name := some n } | none => e1
+       match gplusBlocks ⟨decStr srvName, srvPort.toNat!⟩ Generated.gplusAdmin none e2 with
+       | some b => encStr b
+       | none => "CRASH-RENDER")
   | ["skeleton", st, page] =>
     let (s, k) := run (tstateOf st) (decStr page)
     (match s with | .text => "text" | .tag => "tag" | .attrDq => "dq" | .attrSq => "sq") ++ "\t" ++ encStr k
